@@ -1052,7 +1052,8 @@ Theorem installed_mode_is_requested_proof : forall um s cid p m s',
   exec1 um s (AInstall (FReg cid) p (Some m)) = inl s' ->
   lookup (key p) (s_img s') = Some (NFile m cid (s_ino s)).
 Proof.
-  intros um s cid p m s' H. cbn [exec1] in H.
+  intros um s cid p m s' H. unfold exec1 in H. cbn [action_path] in H.
+  destruct (parent_is_link (key p) (s_img s)); [discriminate|]. cbn [exec1_raw] in H.
   destruct (negb (parent_ok (key p) (s_img s))); [discriminate|].
   destruct (key p) as [|k0 kr] eqn:Ek; [discriminate|].
   destruct (lookup (k0 :: kr) (s_img s)) as [[?|? ? ?|?]|]; try discriminate;
